@@ -4,7 +4,9 @@
 (* quantity of the formats (CBOR arguments, offsets, lengths, dates) is an *)
 (* 8-byte big-endian tuple ("U64"); arithmetic on them reports carry-out.  *)
 (***************************************************************************)
-EXTENDS Integers, Sequences, FiniteSets, SequencesExt
+EXTENDS Integers, Sequences, FiniteSets
+\* SequencesExt is instantiated under a name so that its many operator names (Prefixes, Last, InsertAt, ...) do not leak
+SeqX == INSTANCE SequencesExt
 
 Byte == 0..255
 Min2Raw(a, b) == IF a < b THEN a ELSE b
@@ -13,11 +15,11 @@ Min2Raw(a, b) == IF a < b THEN a ELSE b
 \* over a set in O(n^2); SequencesExt!SelectInSubSeq / SelectLastInSubSeq have Java implementations
 \* that scan once and return the ABSOLUTE index (0 if none) - checked here so that a different
 \* implementation cannot silently change the meaning.
-ASSUME SelectInSubSeq(<<1, 2, 7, 7>>, 2, 4, LAMBDA c : c = 7) = 3
-ASSUME SelectLastInSubSeq(<<7, 2, 7, 1>>, 1, 3, LAMBDA c : c = 7) = 3
+ASSUME SeqX!SelectInSubSeq(<<1, 2, 7, 7>>, 2, 4, LAMBDA c : c = 7) = 3
+ASSUME SeqX!SelectLastInSubSeq(<<7, 2, 7, 1>>, 1, 3, LAMBDA c : c = 7) = 3
 \* first / last index in from..to (clipped to the sequence) whose element satisfies Test; 0 if none
-FirstIn(s, from, to, Test(_)) == IF from > to \/ from > Len(s) THEN 0 ELSE SelectInSubSeq(s, from, Min2Raw(to, Len(s)), Test)
-LastIn(s, from, to, Test(_)) == IF from > to \/ from > Len(s) THEN 0 ELSE SelectLastInSubSeq(s, from, Min2Raw(to, Len(s)), Test)
+FirstIn(s, from, to, Test(_)) == IF from > to \/ from > Len(s) THEN 0 ELSE SeqX!SelectInSubSeq(s, from, Min2Raw(to, Len(s)), Test)
+LastIn(s, from, to, Test(_)) == IF from > to \/ from > Len(s) THEN 0 ELSE SeqX!SelectLastInSubSeq(s, from, Min2Raw(to, Len(s)), Test)
 
 Zeros(n) == [i \in 1..n |-> 0]
 Rep(n, v) == [i \in 1..n |-> v]
